@@ -15,6 +15,9 @@ type Asker struct {
 	SrcIP  string // client source address ("" = default)
 	TLS    *tls.Config
 	Header map[string]string // extra HTTP headers (client address header)
+	// DoQLateFIN: the DoQ client keeps its side of a stream open until it has read the response (the query is complete
+	// with its length prefix; a listener that waits for the FIN before it answers never answers such a client)
+	DoQLateFIN bool
 	udp    *UDPClient
 	doh    map[string]*DoHClient
 	doq    *DoQClient
@@ -132,7 +135,7 @@ func (a *Asker) Ask(kind string, q []byte, wait, linger time.Duration) *AskResul
 			}
 			a.doq = c
 		}
-		data, closed, err := a.doq.Exchange(frame(q), true, wait)
+		data, closed, err := a.doq.Exchange(frame(q), !a.DoQLateFIN, wait)
 		if err != nil {
 			// connection may have idled out: one reconnect
 			a.doq.Close()
